@@ -11,13 +11,13 @@ from harness.util import vec, stack, guarded, first_failures
 
 ID = 'C03'
 LEVEL = 'proof'
+PROPERTY_MODULES = ['PanqecVerif.Properties.C03', 'PanqecVerif.Properties.C03Rank']
 LEVEL_TEXT = ('Lean theorems for every vector length, every vector and every dtype path of bs_prod '
               '(uint8 wrap at any overlap, wide integers, csr): result = GF(2) symplectic form; symmetric, '
               'alternating, bilinear; syndrome linear; string/BSF/integer/weight converters mutually inverse. '
               'Unbounded quantifiers are proved, the model is tied to bpauli.py by differential runs.')
 LEVEL_NOTE = ('trusted: Lean kernel + standard axioms; correspondence harness; numpy/scipy integer dot semantics '
-              '(wrap modulo 256 for 8-bit dtypes) as modelled in Model/Bits.lean; gf2_rank is modelled and compared, '
-              'its equality with the linear-algebra rank is not yet a theorem')
+              '(wrap modulo 256 for 8-bit dtypes) as modelled in Model/Bits.lean; gf2_rank/brank are proved to compute the GF(2) rank (Properties/C03Rank.lean, via Mathlib finrank)')
 TECHNIQUE = 'Lean 4 proof (induction over lists, omega) + differential correspondence with the compiled model driver'
 TRUSTED = ['numpy uint8/int8 dot products wrap modulo 256; wider integer dtypes are exact for the '
            'sizes used; scipy csr dot on uint8 wraps modulo 256 (modelled in Model/Bits.lean)']
